@@ -42,6 +42,18 @@ func Register() {
 		}
 	}, Mods: mixed()})
 	engine.RegisterProperty(&engine.Property{
+		ID: "C13", Profile: "mixed",
+		NonTrivial: func(c map[string]int64) bool {
+			return c["C13.htlc_queue_checks"]+c["C13.farm_queue_checks"]+c["C13.service_queue_checks"]+c["C13.random_queue_checks"] > 40 &&
+				c["tx.ok"] > 20
+		},
+		Probes: []string{"C13.htlc_queue_checks", "C13.farm_queue_checks", "C13.service_queue_checks", "C13.random_queue_checks",
+			"htlc.multi_expiry_height", "htlc.claim_at_expiry", "farm.pools_end_same_height", "farm.destroy_end_block", "farm.adjust_end_block",
+			"farm.stake_end_block", "svc.respond_in_expiry_block", "svc.pause_during_batch", "svc.kill_with_active_requests",
+			"svc.request_expired", "random.several_due_at_one_height", "fault.restart", "fault.crash_before_commit", "fault.clock_jump_days"},
+		Rule: "all ten workload modules on one chain with due-height targeting; a run is non-trivial when the four modules' queues were compared with their objects after more than forty blocks in total and more than twenty transactions were accepted; any panic escaping FinalizeBlock with an irismod frame is a violation; distinct = different fingerprint of the executed (operation kind, outcome class) sequence",
+	})
+	engine.RegisterProperty(&engine.Property{
 		ID: "C16", Profile: "mixed-lab",
 		NonTrivial: func(c map[string]int64) bool { return c["C16.sets_stored"] > 0 && c["C16.differential_msgs"] > 0 },
 		Probes: []string{"C16.experiments", "C16.valid_sets", "C16.invalid_sets", "C16.sets_stored", "C16.sets_rejected",
